@@ -119,11 +119,24 @@ def insert_layout_casts(module, rng):
 
     from snaxc.dialects.snax import LayoutCast
     ctx = repo.opt_main().ctx
+    # one access path per buffer (a cast is a snapshot of its source, see DESIGN 6.3): a buffer is either used directly by every accelerator
+    # op or through ONE layout cast, made in front of its first user
+    from xdsl.dialects import memref as _memref
+    from xdsl.ir import OpResult
+
+    def root(v):
+        while isinstance(v, OpResult) and isinstance(v.op, _memref.MemorySpaceCastOp):
+            v = v.op.source
+        return v
+    chosen = {}        # buffer -> the layout every accelerator op sees it in (None: as it is)
     for g in [o for o in module.walk() if isinstance(o, linalg.GenericOp)]:
         for i, v in enumerate(list(g.operands)):
-            if rng.random() < 0.7 and str(v.type).startswith("memref<4x4xi8") and "tsl" not in str(v.type):
-                lay = Parser(ctx, rng.choice(LAYOUTS)).parse_attribute()
-                c = LayoutCast.from_type_and_target_layout(v, lay)
+            r = root(v)
+            if r not in chosen:
+                ok = rng.random() < 0.7 and str(v.type).startswith("memref<4x4xi8") and "tsl" not in str(v.type)
+                chosen[r] = Parser(ctx, rng.choice(LAYOUTS)).parse_attribute() if ok else None
+            if chosen[r] is not None:
+                c = LayoutCast.from_type_and_target_layout(v, chosen[r])
                 g.parent_block().insert_op_before(c, g)
                 g.operands[i] = c.results[0]
 
